@@ -263,7 +263,11 @@ def shapes(tier):
                  [scope("all_functions", "ENTRY", fpos="ENTRY", functions=["<main>"])],
                  [scope("all_functions", "EXIT", fpos="EXIT", functions=["<entry>"])],
                  [scope("all_functions", "ENTRY", fpos="ENTRY", functions=["re:(foo|s2)"])],
-                 [scope("all_functions", "ANYWHERE", fpos="EXIT", functions=["nosuch"])]):
+                 [scope("all_functions", "ANYWHERE", fpos="EXIT", functions=["nosuch"])],
+                 # an empty filter set is a filter (nothing matches / nothing is excluded), not "no filter"
+                 [scope("all_functions", "ENTRY", fpos="ENTRY", functions=[])],
+                 [scope("all_functions", "EXIT", fpos="EXIT", functions=[])],
+                 [scope("all_blocks", "ENTRY", exclude=[])]):
         spec = orphan_layout()
         spec["mods"] = copy.deepcopy(mods)
         out.append(("orphan/%s" % name_of(mods), spec))
